@@ -202,6 +202,25 @@ def rand_state(rng):
         s[(B.K_LAN, rng.choice([0, 1, 2, 7, 14, 15]), 20)] = [rng.randrange(256), rng.choice([0x80, 0x8f, 0x00, 0x81])]
     if rng.random() < 0.3:
         s[(B.K_LAN, rng.choice([0, 1, 2]), 4)] = [rng.randrange(5)]
+    for _ in range(rng.randrange(3)):
+        ch, itf = rng.choice([0, 1, 15, 63]), rng.randrange(4)
+        s[(B.K_PORT, itf, ch)] = [ch | itf << 6, rng.randrange(256), rng.randrange(256), rng.randrange(256), rng.randrange(2)]
+    if rng.random() < 0.3:
+        s[(B.K_SIGCLASS, rng.randrange(4), rng.choice([0, 1, 15, 63]))] = [rng.randrange(16)]
+    if rng.random() < 0.4:
+        s[(B.K_PWRCHST, rng.choice([1, 2, 3, 16]), 0)] = [rng.randrange(128)]
+    if rng.random() < 0.3:
+        s[(B.K_PMGLOBAL, 0, 0)] = [rng.choice([2, 16]), rng.randrange(16)]
+    if rng.random() < 0.4:
+        s[(B.K_GUID, 0, 0)] = [rng.randrange(256) for _ in range(16)]
+    if rng.random() < 0.4:
+        s[(B.K_AUTHCAP, rng.choice([0, 1, 2, 7, 14, 15]), 0)] = [rng.randrange(256), rng.randrange(64), rng.randrange(4), 1, 2, 3, 4]
+    if rng.random() < 0.4:
+        s[(B.K_ROLLBACK, 0, 0)] = rng.choice([[0], [1, 0], [0, 50], [2, 100]])
+    if rng.random() < 0.3:
+        s[(B.K_DCMIPWR, 0, 0)] = [rng.randrange(256) for _ in range(17)]
+    if rng.random() < 0.3:
+        s[(B.K_DCMICAP, rng.randrange(6), 0)] = [rng.randrange(256) for _ in range(rng.choice([0, 1, 4]))]
     if rng.random() < 0.4:
         s[(B.K_HPMCAP, 0, 0)] = [rng.randrange(256) for _ in range(6)] + [rng.choice([0, 1, 0x05, 0x80, 0xff])]
     if rng.random() < 0.4:
@@ -258,6 +277,8 @@ def check_call(op, a, out, log):
         exp = sp['res'](a, list(reply[1:]))
     except (IndexError, KeyError):
         exp = 'KeyError'          # the stored object is too short to have a meaning (written through the raw setters)
+    if isinstance(exp, str) and exp == 'UNDECIDED':
+        return None
     if isinstance(exp, str) and exp in ('DecodingError', 'KeyError'):
         if out[0] == 'exc':
             return None
